@@ -83,7 +83,7 @@ def _lines(text):
     ls = text.split("\n")
     if ls and ls[-1] == "":
         ls.pop()
-    return ls
+    return [x[:-1] if x.endswith("\r") else x for x in ls]
 
 
 def inline_text(store, url, expected, chain=()):
@@ -222,7 +222,8 @@ def generate(rng, tier, index):
             res = TF.res_texts(uni)
         else:
             plan["variant"] = "plain"
-    store = {u: TF.join(ls) for u, ls in res.items()}
+    store = {u: TF.join(ls, *TF.eol_choice(rng))
+             for u, ls in sorted(res.items())}
     frags = sorted(u for u in store if u != uni["top"])
     if plan["variant"] == "missing-fragment":
         if frags:
